@@ -8,6 +8,8 @@ shutil.copy(f"{wt}/mutant_{n}.diff", f"{dst}/patch.diff")
 if os.path.isdir(f"{wt}/demo_{n}"):
     if os.path.exists(f"{dst}/demo"): shutil.rmtree(f"{dst}/demo")
     shutil.copytree(f"{wt}/demo_{n}", f"{dst}/demo", ignore=shutil.ignore_patterns("target", "Cargo.lock"))
+elif os.path.exists(f"{wt}/demo_{n}.sh"):
+    shutil.copy(f"{wt}/demo_{n}.sh", f"{dst}/demo.sh")
 elif os.path.exists(f"{wt}/tests/demo_{n}.rs"):
     shutil.copy(f"{wt}/tests/demo_{n}.rs", f"{dst}/demo.rs")
 if os.path.exists(f"{wt}/mutant_{n}.md"):
